@@ -157,7 +157,13 @@ def run(rep, tier, seed):
         if rnd.random() < 0.5:
             order = [Context.from_json(c.json()) for c in order]
             rep.hist['front-end-contexts-loaded-from-json'] = rep.hist.get('front-end-contexts-loaded-from-json', 0) + 1
-        front = SCHC(order)
+        if h % 5 == 2:
+            # the contexts come as any iterable (a generator over loaded JSON documents, a map object, a tuple), not necessarily a list
+            give = rnd.choice([lambda o: (c for c in o), lambda o: map(lambda c: c, o), tuple, iter])
+            front = SCHC(give(order))
+            rep.hist['front-end-contexts-given-as-iterable'] = rep.hist.get('front-end-contexts-given-as-iterable', 0) + 1
+        else:
+            front = SCHC(order)
         nctxs = [[n_rule(r) for r in c.ruleset] for c in ctxs]
         for step in range(10):
             r = rnd.random()
